@@ -1006,7 +1006,7 @@ func c21(r *vkit.Run) {
 		return
 	}
 	n := r.N(2000, 60000)
-	ns := r.N(48, 640)
+	ns := r.N(32, 480)
 	// streams and histories together: oversubscription diversifies the schedules
 	var wg sync.WaitGroup
 	wg.Add(1)
